@@ -211,6 +211,17 @@ def _outside(a, f):
             k, d = R.classify(dec[0][33:])
             if k != "multisig" or d[0] != len(a[3]):
                 return "redeem script is not an m-of-n multisig signed by exactly m keys"
+            # OP_CHECKMULTISIG matches signatures to keys IN ORDER: the signing keys must be a subsequence of the script's keys
+            # (a key the script lists twice may sign twice)
+            pos = 0
+            for pk in dec:
+                kint = int.from_bytes(pk[1:33], "big")
+                pubs = (R.pub_of(kint, True), R.pub_of(kint, False))
+                while pos < len(d[1]) and d[1][pos] not in pubs:
+                    pos += 1
+                if pos == len(d[1]):
+                    return "signing keys are not (in order) keys of the multisig script"
+                pos += 1
     return None
 
 
@@ -527,12 +538,14 @@ INEXACT_SATS = [k for k in [29000000, 57000000, 58000000, 113000000, 115000000, 
 
 
 def _send_case(rng, cls, kind, vouts, sats, frac=1.0, fee=1000, flag=1, version=1, locktime=0, m=2, nkeys=3, rk="p2wpkh",
-               change="p2pkh", signed=True, compressed=True, net="regtest", signing=None, same_txid=False, **kw):
+               change="p2pkh", signed=True, compressed=True, net="regtest", signing=None, same_txid=False, key_pattern=None, **kw):
     keys = _keys(rng, nkeys if kind in ("multisig", "p2sh", "p2wsh", "p2sh-p2wsh") else 1)
+    if key_pattern is not None:                 # e.g. [0, 1, 0]: the script lists key 0 twice
+        keys = [keys[i] for i in key_pattern]
     s_addr, spk, wifs = sender(kind, keys, m=m, net=net, compressed=compressed, signing=signing)
-    rec = recipient(rk, rng, net)
-    ch = recipient(change, rng, net) if change else None
-    nsig = (len(vouts) if kind in SEGWIT_KINDS else 1) * len(wifs)
+    rec = s_addr if rk == "sender" else recipient(rk, rng, net)
+    ch = s_addr if change == "sender" else (recipient(change, rng, net) if change else None)
+    nsig = len(vouts) * len(wifs)               # every selected input is signed by every key
     return scenario(cls, s_addr, rec, ch, wifs if signed else [], flag if signed else None, frac, fee, version, locktime,
                     _utxos(rng, vouts, sats, spk, same_txid), _draws(rng, nsig + 1) if signed else [], **kw)
 
@@ -675,6 +688,31 @@ def gen_cases(rng, tier):
         A(_send_case(rng, "legacy-single-quirk", kind, [0, 1], [COIN, COIN], frac=1.0, flag=rng.choice([3, 0x83]), m=1, nkeys=2))
     A(_send_case(rng, "legacy-single-quirk", "p2pkh", [2, 0, 1], [COIN, COIN, COIN], frac=0.9, flag=3))
     A(_send_case(rng, "legacy-multi-input-flags", "p2sh", [0, 1, 2], [COIN, COIN, COIN], frac=0.9, flag=0x82, m=2, nkeys=3))
+    # ---- relations between elements: a multisig script that REPEATS a public key, signed with the same WIF supplied as often as
+    #      needed (2-of-2 (A,A), 2-of-3 (A,B,A) by A,A and by A,B, 3-of-3 (A,B,A), 3-of-3 (A,A,A)); recipient = change = sender
+    MS_KINDS = ("multisig", "p2sh", "p2wsh", "p2sh-p2wsh")
+    REPEATS = [([0, 0], 2, [0, 1]), ([0, 1, 0], 2, [0, 2]), ([0, 1, 0], 3, [0, 1, 2]), ([0, 0, 0], 3, [0, 1, 2]),
+               ([0, 1, 0], 2, [0, 1]), ([0, 0, 1], 2, [0, 1]), ([1, 0, 0], 2, [1, 2])]
+    for kind in MS_KINDS:
+        for (pat, m_, sg) in (REPEATS if T else rng.sample(REPEATS[:4], 2) + rng.sample(REPEATS[4:], 1)):
+            A(_send_case(rng, "multisig-repeated-key", kind, [rng.randrange(3)], [COIN], frac=rng.choice([1.0, 0.5]), flag=rng.choice(FLAGS),
+                         m=m_, nkeys=2, key_pattern=pat, signing=sg, compressed=rng.random() < 0.7))
+    A(_send_case(rng, "multisig-repeated-key", "p2wsh", [0, 1], [COIN, COIN], frac=1.0, flag=1, m=2, nkeys=2, key_pattern=[0, 0],
+                 signing=[0, 1]))
+    # keys supplied in an order different from the script's: not a scenario of the property (CHECKMULTISIG is ordered and send_tx
+    # signs in the order given) - implementation and model must still agree
+    for kind in (MS_KINDS if T else rng.sample(MS_KINDS, 2)):
+        A(_send_case(rng, "multisig-keys-out-of-order", kind, [0], [COIN], m=2, nkeys=3, signing=[2, 0]))
+    for kind in ("p2pk", "p2pkh", "p2sh", "p2wpkh", "p2wsh", "p2sh-p2wpkh", "p2sh-p2wsh"):
+        A(_send_case(rng, "same-address-everywhere", kind, [0, 1], [COIN, COIN], frac=0.3, rk="sender", change="sender",
+                     signed=(kind in ("p2pkh", "p2wpkh") or T), m=1, nkeys=2))
+    A(_send_case(rng, "same-address-everywhere", "p2pkh", [0], [COIN], frac=0.5, rk="sender", change=None))
+    # the same outpoint reported twice (outside the quantifier: correspondence only), and utxos identical in everything but vout
+    dup = _send_case(rng, "same-outpoint-twice", "p2pkh", [2, 2], [COIN, COIN], frac=1.0, signed=False, same_txid=True)
+    A(dup)
+    A(_send_case(rng, "same-outpoint-twice", "p2wpkh", [0, 0], [COIN, COIN], frac=1.0, flag=1, same_txid=True))
+    A(_send_case(rng, "twin-utxos", "p2sh-p2wpkh", [0, 1, 2], [COIN] * 3, frac=0.5, flag=0x81, same_txid=True))
+    A(_send_case(rng, "twin-utxos", "p2pkh", [3, 4], [12345678] * 2, frac=1.0, flag=1, same_txid=True))
     # ---- witness scripts of 253 bytes and more (1-of-8: 275 bytes; beyond the property's n <= 3): CompactSize scriptCode length
     for kind in ("p2wsh", "p2sh-p2wsh"):
         A(_send_case(rng, "wsh-large-witness-script", kind, [0], [COIN], frac=rng.choice([1.0, 0.5]), flag=rng.choice(FLAGS),
@@ -719,7 +757,7 @@ def gen_cases(rng, tier):
                      change=rng.choice(["p2pkh", "p2wpkh", "p2sh", "pubkey", None if kind != "multisig" else "p2tr"]),
                      signed=False, m=rng.randrange(1, 4), net=rng.choice(list(NETS)), compressed=rng.random() < 0.7))
     # ---- signed random scenarios over the whole product (most fall into a known class; the rest must verify)
-    for _ in range(150 if T else 12):
+    for _ in range(150 if T else 8):
         kind = rng.choice(LEGACY_KINDS + SEGWIT_KINDS)
         k = rng.randrange(1, 4)
         m = rng.randrange(1, 3)
